@@ -11,10 +11,15 @@ package c09
 // the init code (ends with STOP: empty runtime code, no deposit cost) and embedded in the creator's data section.
 
 import (
+	"bytes"
+	"crypto/sha256"
 	"encoding/binary"
+	"encoding/hex"
 	"fmt"
 	"math/big"
 	"math/rand"
+	"sort"
+	"strings"
 
 	sdk "github.com/cosmos/cosmos-sdk/types"
 	"github.com/ethereum/go-ethereum/common"
@@ -22,9 +27,11 @@ import (
 	"github.com/ethereum/go-ethereum/crypto"
 
 	"fxverif/harness/evmx"
+	"fxverif/harness/hx"
 )
 
 const opCREATE = 0xf0
+const opCREATE2 = 0xf5
 
 type xasm struct {
 	pcs   []int
@@ -57,7 +64,7 @@ func (a *xasm) pushBig(v *big.Int) {
 }
 
 // assembleX: evmx.Assemble plus CREATE nodes (same instruction sequences for everything evmx.Assemble knows)
-func assembleX(nodes []*evmx.Node, create map[int]bool) []byte {
+func assembleX(nodes []*evmx.Node, create map[int]bool, salt map[int]*big.Int) []byte {
 	a := &xasm{}
 	dataRef := func(d []byte) {
 		a.op(evmx.PUSH2, 0, 0)
@@ -98,11 +105,14 @@ func assembleX(nodes []*evmx.Node, create map[int]bool) []byte {
 		case n.Op == "invalid":
 			a.op(evmx.INVALID)
 		case n.Op == "call" && create[n.ID]:
-			init := assembleX(n.Body, create)
+			init := assembleX(n.Body, create, salt)
 			a.push2(len(init))
 			dataRef(init)
 			a.push1(0)
 			a.op(evmx.CODECOPY)
+			if sl := salt[n.ID]; sl != nil {
+				a.pushBig(sl) // CREATE2 (round 5): salt below size / offset / endowment
+			}
 			a.push2(len(init)) // size
 			a.push1(0)         // offset
 			v := n.Value
@@ -111,7 +121,11 @@ func assembleX(nodes []*evmx.Node, create map[int]bool) []byte {
 			}
 			a.pushBig(v)
 			n.PcCall = len(a.code)
-			a.op(opCREATE)
+			if salt[n.ID] != nil {
+				a.op(opCREATE2)
+			} else {
+				a.op(opCREATE)
+			}
 			post(n)
 		case n.Op == "call" || n.Op == "pre":
 			size := 0
@@ -166,7 +180,7 @@ func assembleX(nodes []*evmx.Node, create map[int]bool) []byte {
 // installTreeX: evmx.InstallTree for programs with CREATE nodes (the init code travels inside the creator's code; the
 // contracts the constructor calls are installed as usual)
 func (e *env) installTreeX(ctx sdk.Context, p *program, root common.Address, nodes []*evmx.Node) error {
-	if err := evmx.Install(ctx, e.s.App, root, assembleX(nodes, p.create)); err != nil {
+	if err := evmx.Install(ctx, e.s.App, root, assembleX(nodes, p.create, p.salt)); err != nil {
 		return err
 	}
 	var sub func(list []*evmx.Node) error
@@ -217,6 +231,24 @@ func (t *createTracer) CaptureEnter(typ vm.OpCode, from, to common.Address, inpu
 	}
 }
 
+// create2Address: keccak256(0xff ++ creator ++ salt ++ keccak256(init code))[12:] — the address does not depend on the
+// creator's nonce (round 5)
+func create2Address(creator common.Address, salt *big.Int, init []byte) common.Address {
+	var s32 [32]byte
+	salt.FillBytes(s32[:])
+	return crypto.CreateAddress2(creator, s32, crypto.Keccak256(init))
+}
+
+// retarget: the account a constructor body was generated for turns out to live at another address (CREATE2: the address
+// is a function of the finished init code)
+func (p *program) retarget(list []*evmx.Node, from, to common.Address) {
+	evmx.Walk(list, 0, func(n *evmx.Node, _ int) {
+		if p.ctxOf[n.ID] == from {
+			p.ctxOf[n.ID] = to
+		}
+	})
+}
+
 // createVariants: methods a freshly created account can call meaningfully from its constructor (its calldata does not
 // mention the caller; the endowment pays for delegations / origin-token transfers)
 var createVariants = []string{"approveShares", "delegateV2", "crossChain/origin", "bridgeCall/value", "withdraw/unknown-validator", "delegateV2/keeper-rejects"}
@@ -226,10 +258,10 @@ var createVariants = []string{"approveShares", "delegateV2", "crossChain/origin"
 func (e *env) createPrograms(rng *rand.Rand) []*program {
 	var res []*program
 	for _, want := range createVariants {
-		for shape := 0; shape < 2; shape++ {
+		for shape := 0; shape < 4; shape++ { // round 5: shapes 2 and 3 are shapes 0 and 1 through CREATE2
 			var got *program
 			for try := 0; try < 40000 && got == nil; try++ {
-				p := &program{meta: map[int]*meta{}, nodes: map[int]*evmx.Node{}, ctxOf: map[int]common.Address{}, inner: map[int]*inner{}, used: map[int]bool{}, create: map[int]bool{}}
+				p := &program{meta: map[int]*meta{}, nodes: map[int]*evmx.Node{}, ctxOf: map[int]common.Address{}, inner: map[int]*inner{}, used: map[int]bool{}, create: map[int]bool{}, salt: map[int]*big.Int{}, child2: map[int]common.Address{}}
 				p.addrs = []common.Address{e.pool[0], e.pool[1]}
 				e.attachGen(rng, p)
 				p.next = 10
@@ -252,7 +284,7 @@ func (e *env) createPrograms(rng *rand.Rand) []*program {
 					return n
 				}
 				body := []*evmx.Node{mk(3, child), nd}
-				if shape == 1 && mt.mode != "fail" {
+				if shape%2 == 1 && mt.mode != "fail" {
 					rv := &evmx.Node{Op: "revert", ID: 4}
 					p.nodes[4], p.ctxOf[4] = rv, child
 					body = append(body, rv)
@@ -262,16 +294,108 @@ func (e *env) createPrograms(rng *rand.Rand) []*program {
 				cr := &evmx.Node{Op: "call", ID: 5, Kind: evmx.KCall, To: child, Swallow: true, Value: new(big.Int).Mul(big.NewInt(5), big.NewInt(1e18)), Body: body}
 				p.create[5] = true
 				p.nodes[5], p.ctxOf[5] = cr, e.pool[0]
+				if shape >= 2 {
+					p.salt[5] = big.NewInt(int64(1 + rng.Intn(1<<30)))
+					c2 := create2Address(e.pool[0], p.salt[5], assembleX(body, p.create, p.salt))
+					p.retarget(body, child, c2)
+					cr.To = c2
+					p.child2[5] = c2
+					if c2b := create2Address(e.pool[0], p.salt[5], assembleX(body, p.create, p.salt)); c2b != c2 {
+						continue // the init code mentions its own address: not expressible
+					}
+				}
 				p.root = []*evmx.Node{mk(1, e.pool[0]), cr, mk(2, e.pool[0])}
 				got = p
 			}
 			if got != nil {
 				res = append(res, got)
 				e.cnt("directed:constructor:" + want)
+				if len(got.salt) > 0 {
+					e.cnt("directed:constructor-create2:" + want)
+				}
 			} else {
 				e.cnt("directed-not-found:constructor:" + want)
 			}
 		}
+	}
+	return res
+}
+
+// ---------------------------------------------------------------------------------------------------------
+// canonical names for salted accounts (round 5)
+//
+// The reference run executes the program PRUNED to the kept frames; a pruned constructor has another init code and its
+// CREATE2 address is another one.  Store dumps and log texts of a program with CREATE2 nodes therefore name every salted
+// account by the id of the node that creates it: raw 20 bytes, bech32, hex (checksummed and lower case) are replaced.
+
+func placeholder(id int) common.Address {
+	var a common.Address
+	for i := range a {
+		a[i] = 0xc2
+	}
+	a[18], a[19] = byte(id>>8), byte(id)
+	return a
+}
+
+type subst struct{ from, to []byte }
+
+func (p *program) substs() []subst {
+	var res []subst
+	ids := make([]int, 0, len(p.child2))
+	for id := range p.child2 {
+		ids = append(ids, id)
+	}
+	sort.Ints(ids)
+	for _, id := range ids {
+		a, ph := p.child2[id], placeholder(id)
+		res = append(res,
+			subst{a.Bytes(), ph.Bytes()},
+			subst{[]byte(sdk.AccAddress(a.Bytes()).String()), []byte(sdk.AccAddress(ph.Bytes()).String())},
+			subst{[]byte(a.Hex()), []byte(ph.Hex())},
+			subst{[]byte(strings.ToLower(a.Hex()[2:])), []byte(strings.ToLower(ph.Hex()[2:]))})
+	}
+	return res
+}
+
+func applySubst(b []byte, ss []subst) []byte {
+	for _, s := range ss {
+		if bytes.Contains(b, s.from) {
+			b = bytes.ReplaceAll(b, s.from, s.to)
+		}
+	}
+	return b
+}
+
+func (p *program) canonText(s string) string {
+	if len(p.child2) == 0 {
+		return s
+	}
+	return string(applySubst([]byte(s), p.substs()))
+}
+
+// dumpCosmosFor: dumpCosmos, with the salted accounts of p named canonically (programs without CREATE2: the plain dump)
+func (e *env) dumpCosmosFor(ctx sdk.Context, p *program) map[string]string {
+	if p == nil || len(p.salt) == 0 { // (a pruned copy shares p.salt: both sides of a comparison use the same digest)
+		return e.dumpCosmos(ctx)
+	}
+	ss := p.substs()
+	res := e.dumpCosmos(ctx) // token storage digests stay (a fresh account holds no tokens)
+	keys := e.s.App.GetKVStoreKey()
+	for _, n := range cosmosStores {
+		k, ok := keys[n]
+		if !ok {
+			continue
+		}
+		var kvs [][2][]byte
+		for _, kv := range hx.RawPrefix(ctx, k, nil) {
+			kvs = append(kvs, [2][]byte{applySubst(kv[0], ss), applySubst(kv[1], ss)})
+		}
+		sort.Slice(kvs, func(i, j int) bool { return bytes.Compare(kvs[i][0], kvs[j][0]) < 0 })
+		h := sha256.New()
+		for _, kv := range kvs {
+			fmt.Fprintf(h, "%d:%x=%d:%x;", len(kv[0]), kv[0], len(kv[1]), kv[1])
+		}
+		res[n] = hex.EncodeToString(h.Sum(nil))
 	}
 	return res
 }
